@@ -23,13 +23,19 @@ var c14DescFields = map[string]bool{"readers": true, "exclusive": true}
 var c14InitOnly = map[string]bool{"NewInmemService": true, "NewInmemServiceWithConfig": true, "Init": true,
 	"checkConsistency": true, "loadState": true}
 
-// functions that are only called with the lock held (their call sites are checked instead of their bodies)
-var c14CalledLocked = map[string]bool{"saveStateUnsafe": true, "String": true}
+// c14Call is a call of a function of the package: who calls, whom, and whether the owning mutex is held there
+type c14Call struct {
+	caller, callee string
+	locked         bool
+	pos            string
+}
 
 type c14Walker struct {
 	fn       string
 	deferred bool // defer ims.lock.Unlock() seen: locked until the function returns
 	out      *[]string
+	calls    *[]c14Call
+	known    map[string]bool // functions and methods declared in the package
 }
 
 func c14IsLockCall(e ast.Expr, name string) bool {
@@ -45,16 +51,21 @@ func c14IsLockCall(e ast.Expr, name string) bool {
 	return ok && in.Sel.Name == "lock"
 }
 
-// accesses reports protected accesses (and calls of called-locked functions) inside n when the lock is not held
+// accesses reports protected accesses inside n when the lock is not held, and records every call of a function of the
+// package together with the lock state at the call site
 func (w *c14Walker) accesses(n ast.Node, locked bool) {
-	if n == nil || locked || w.deferred {
+	if n == nil {
 		return
 	}
+	locked = locked || w.deferred
 	ast.Inspect(n, func(m ast.Node) bool {
 		switch x := m.(type) {
 		case *ast.FuncLit:
 			return false // closures are walked when they are statements of their own
 		case *ast.SelectorExpr:
+			if locked {
+				return true
+			}
 			if id, ok := x.X.(*ast.Ident); ok && c14SvcFields[x.Sel.Name] && (id.Name == "ims" || id.Name == "res") {
 				*w.out = append(*w.out, fmt.Sprintf("%s: %s.%s at %s", w.fn, id.Name, x.Sel.Name, fset.Position(x.Pos())))
 			}
@@ -62,14 +73,17 @@ func (w *c14Walker) accesses(n ast.Node, locked bool) {
 				*w.out = append(*w.out, fmt.Sprintf("%s: .%s at %s", w.fn, x.Sel.Name, fset.Position(x.Pos())))
 			}
 		case *ast.CallExpr:
-			if se, ok := x.Fun.(*ast.SelectorExpr); ok && c14CalledLocked[se.Sel.Name] {
-				if se.Sel.Name == "String" {
-					// only tagsDesc.String(): receiver named td
-					if id, ok := se.X.(*ast.Ident); !ok || id.Name != "td" {
-						return true
-					}
+			name := ""
+			switch f := x.Fun.(type) {
+			case *ast.SelectorExpr:
+				if id, ok := f.X.(*ast.Ident); ok && (id.Name == "ims" || id.Name == "td" || id.Name == "res") {
+					name = f.Sel.Name
 				}
-				*w.out = append(*w.out, fmt.Sprintf("%s: call of %s without the lock at %s", w.fn, se.Sel.Name, fset.Position(x.Pos())))
+			case *ast.Ident:
+				name = f.Name
+			}
+			if name != "" && w.known[name] && w.calls != nil {
+				*w.calls = append(*w.calls, c14Call{caller: w.fn, callee: name, locked: locked, pos: fset.Position(x.Pos()).String()})
 			}
 		}
 		return true
@@ -193,7 +207,7 @@ func (w *c14Walker) stmt(s ast.Stmt, locked bool) (bool, bool) {
 		// function literals assigned or passed here run later, possibly without the lock: walk them unlocked
 		ast.Inspect(s, func(m ast.Node) bool {
 			if fl, ok := m.(*ast.FuncLit); ok {
-				sub := &c14Walker{fn: w.fn + "(closure)", out: w.out}
+				sub := &c14Walker{fn: w.fn + "(closure)", out: w.out, calls: w.calls, known: w.known}
 				sub.stmts(fl.Body.List, false)
 				return false
 			}
@@ -228,6 +242,12 @@ func init() {
 		sort.Strings(files)
 		sawService := false
 		lockReaders := int64(-1)
+		type c14Fn struct {
+			key, name, recv string
+			fd              *ast.FuncDecl
+		}
+		var fns []c14Fn
+		known := map[string]bool{}
 		for _, fn := range files {
 			if strings.HasSuffix(fn, "_test.go") {
 				continue
@@ -246,11 +266,8 @@ func init() {
 				if recv == "inmemService" {
 					sawService = true
 				}
-				if c14InitOnly[fd.Name.Name] || (c14CalledLocked[fd.Name.Name] && (recv == "inmemService" || recv == "tagsDesc")) {
-					continue
-				}
-				w := &c14Walker{fn: filepath.Base(fn) + ":" + fd.Name.Name, out: &unlocked}
-				w.stmts(fd.Body.List, false)
+				fns = append(fns, c14Fn{key: filepath.Base(fn) + ":" + fd.Name.Name, name: fd.Name.Name, recv: recv, fd: fd})
+				known[fd.Name.Name] = true
 				if recv == "inmemService" && fd.Name.Name == "LockExclusively" {
 					// the reader count the exclusive lock demands: `td.readers == N`
 					ast.Inspect(fd.Body, func(m ast.Node) bool {
@@ -267,6 +284,59 @@ func init() {
 					})
 				}
 			}
+		}
+		// "called only under the lock", computed transitively (a helper such as saveStateUnsafe or an extracted locked body):
+		// a function that cannot be called from outside the package counts as running with the mutex held when it has call
+		// sites and every one of them is inside a critical section, in a function that runs before the service is published,
+		// or in a function that itself counts as locked. Three rounds = helpers of helpers of helpers. The name suffix
+		// "Unsafe" plays no role. Such a function is then walked with the lock held at its entry (an Unlock inside it still
+		// ends the critical section for what follows).
+		lockedFn := map[string]bool{}
+		for round := 0; round < 4; round++ {
+			unlocked = unlocked[:0]
+			var calls []c14Call
+			for _, f := range fns {
+				if c14InitOnly[f.name] {
+					// still record its calls (they are legitimate call sites), not its accesses
+					var dummy []string
+					w := &c14Walker{fn: f.name, out: &dummy, calls: &calls, known: known}
+					w.stmts(f.fd.Body.List, true)
+					continue
+				}
+				w := &c14Walker{fn: f.name, out: &unlocked, calls: &calls, known: known}
+				w.stmts(f.fd.Body.List, lockedFn[f.name])
+			}
+			if round == 3 {
+				break
+			}
+			next := map[string]bool{}
+			for _, f := range fns {
+				internal := f.name != "" && strings.ToLower(f.name[:1]) == f.name[:1]
+				if f.name == "String" && f.recv == "tagsDesc" {
+					internal = true // the descriptor type is not exported and is only printed inside the package
+				}
+				if !internal || c14InitOnly[f.name] {
+					continue
+				}
+				n, ok := 0, true
+				for _, c := range calls {
+					if c.callee != f.name {
+						continue
+					}
+					n++
+					caller := strings.TrimSuffix(c.caller, "(closure)")
+					if !(c.locked || (c14InitOnly[caller] && caller == c.caller) || (lockedFn[caller] && caller == c.caller && c.locked)) {
+						ok = false
+					}
+				}
+				if n > 0 && ok {
+					next[f.name] = true
+				}
+			}
+			lockedFn = next
+		}
+		for i := range unlocked {
+			unlocked[i] = "inmem.go:" + unlocked[i]
 		}
 		if !sawService {
 			problem("pkg/tindex: type inmemService and its methods not found")
